@@ -83,7 +83,12 @@ def ridString (b : Bytes) : String := String.ofList (b.map fun u => Char.ofNat u
 def startState (c : Case) : St :=
   if c.kind == "inc" || c.kind == "tags" then init c.inOff (ridBytes c.runid)
   else if c.kind == "cont" then begin K c.inOff (ridBytes c.runid) .cont
-  else begin K c.inOff (ridBytes c.runid) (.full (ridBytes c.runid) c.ann)
+  else
+    -- the start asks with "?" (or with a checkpoint's stale id): harness `SendPSync(master, req)`; the source announces `c.runid`
+    let req := match (ridBytes c.runid).head? with
+      | some b => if b % 2 == 0 then "0123456789abcdef0123456789abcdef01234567" else "?"
+      | none => "?"
+    begin K c.inOff (ridBytes req) (.full (ridBytes c.runid) c.ann)
 
 def showOut : Out → String
   | .ack c n => s!"a{c}:{n}"
